@@ -140,6 +140,28 @@ func c01SemSpecs(quick bool) []*SeqSpec {
 	}
 	a = append(a, op(0, L(0, 1, 4, 3, 50, 1, 0)), tick(4*sec))
 	specs = append(specs, &SeqSpec{Name: "mixed-counts", Cfg: cfg, Alphabet: a, Depth: d, MonC01: true, MaxStates: 300000})
+	// the flags of the core command subset that choose another path through LockDB.Lock / UnLock
+	var f []SeqOp
+	for _, id := range []byte{1, 2} {
+		cl := int(id) % 2
+		f = append(f,
+			op(cl, L(0, 1, id, 0, 50, 1, 1)),
+			op(cl, withF(L(0, 1, id, 0, 50, 1, 1), 0x01)),       // show when locked
+			op(cl, withF(L(0, 1, id, 0, 60, 1, 1), 0x02)),       // update when locked
+			op(cl, withF(L(0, 1, id, 0, 50, 0, 0), 0x08)),       // concurrent check, timeout 0
+			op(cl, withTF(L(0, 1, id, 2, 50, 0, 0), 0x0200)),    // wait when unlocked
+			op(cl, withEF(L(0, 1, id, 0, 50, 1, 0), efZeroAof)), // enters the long expiry table at once
+			op(cl, withTF(L(0, 1, id, 3000, 50, 1, 0), fMilli)), // millisecond wait
+			op(cl, U(0, 1, id)),
+			op(cl, hapi.Cmd{Type: 2, Key: 1, Id: id, Flag: 0x01}), // unlock first
+			op(cl, hapi.Cmd{Type: 2, Key: 1, Id: id, Flag: 0x02})) // cancel wait
+	}
+	f = append(f, op(0, L(0, 1, 3, 0, 50, 0, 0)), tick(1*sec), tick(4*sec))
+	fd := 4
+	if !quick {
+		fd = 5
+	}
+	specs = append(specs, &SeqSpec{Name: "flags", Cfg: cfg, Alphabet: f, Depth: fd, MonC01: true, MaxStates: 300000})
 	return specs
 }
 
